@@ -49,6 +49,26 @@ def code_schema():
         InputField("again", inner, default_value=None),
         InputField("cs", ListType(color), default_value=[1, "g"]),
     ])
+    from py_gql.schema import RegexType
+
+    class SubObject(ObjectType):
+        pass
+
+    class SubEnum(EnumType):
+        pass
+    from py_gql.schema import ScalarType
+    def raw_literal(node, variables):
+        from py_gql.lang import ast as _A
+        if isinstance(node, _A.IntValue):
+            return int(node.value)
+        if isinstance(node, _A.FloatValue):
+            return float(node.value)
+        return node.value
+    raw = ScalarType("Raw", serialize=lambda v: v, parse=lambda v: v, parse_literal=raw_literal)
+    email = RegexType("Email", r"^[^@]+@[^@]+$", description="an address")
+    sub_object = SubObject("Sub", [Field("x", Int, description="LS\u2028PS\u2029NEL\u0085 are not line terminators")],
+                           description="first\u2028still first\nsecond\u0085still second")
+    sub_enum = SubEnum("Shade", [("DARK", "d"), ("LIGHT", "l")])
     named = InterfaceType("Named", [Field("name", String)], resolve_type=lambda *a: "Dog")
     dog = ObjectType("Dog", [Field("name", String), Field("mood", color, deprecation_reason="moody"),
                              Field("old", String, deprecation_reason="first line\n  second, indented\n")], interfaces=[named], description="a dog\nwith two lines")
@@ -63,6 +83,12 @@ def code_schema():
             Argument("deep", NonNullType(ListType(NonNullType(ListType(NonNullType(ListType(NonNullType(Int))))))), default_value=[[[1]]]),
         ]),
         Field("pet", pet), Field("named", ListType(NonNullType(named))),
+        # instances of SUBCLASSES of the type classes are types of the same kind (the library itself ships RegexType)
+        # a pass-through custom scalar with defaults that are equal as Python values but different literals (1 / true / 1.0; 0 / false)
+        Field("raw", raw, args=[Argument("r1", raw, default_value=1), Argument("r2", raw, default_value=True), Argument("r3", raw, default_value=1.0),
+                                Argument("r4", ListType(raw), default_value=[0, False, 0.0]), Argument("r5", raw, default_value=False),
+                                Argument("r6", raw, default_value=0)]),
+        Field("email", email, args=[Argument("like", email, default_value="a@b")]), Field("sub", ListType(sub_object)), Field("shade", sub_enum),
         Field("deep7", NonNullType(ListType(NonNullType(ListType(NonNullType(ListType(NonNullType(String)))))))),
     ])
     return Schema(query)
@@ -211,7 +237,10 @@ def check(tier, seed):
                 run.violation("to_string:output-parses", "the serialised schema is rejected by the parser: %s" % (e,), dict(w, text=text[:400]), True)
                 continue
             try:
-                s2 = build_schema(text)
+                # SDL cannot carry the behaviour of a custom scalar: code-built custom scalars are handed to the builder, as the library documents
+                from py_gql.schema import ScalarType as _ST
+                customs = [t for t in s.types.values() if type(t) is _ST and t.name == "Raw"]
+                s2 = build_schema(text, additional_types=customs) if customs else build_schema(text)
             except Exception as e:
                 run.violation("to_string:output-builds", "building a schema from the serialised text raised %r" % (e,), dict(w, text=text[:600], exc=type(e).__name__), True)
                 continue
